@@ -34,6 +34,19 @@
                                             `while len(S) > old: old = len(S); for x in L: ...`   fuel = loop_bound L = #L + 2
                                             `while str(i) in D.values(): i += 1`                 fuel = #D + 1
                                           (Theory/DrawingGenThm.v: more fuel never changes the result)
+     while True: <body>;                  do_until fuel body stop next state — one shape is accepted:
+       if <stop>: return <e>                `while True: old = len(S); for .. in L: ..; if len(S) == old: return <e>`
+                                          fuel = loop_bound L = #L + 2 (Theory/DrawingGenThm.v: more fuel never changes the
+                                          result); <e> is evaluated over the locals bound after the last round
+     for x in L: if c: return e           match find (fun x => c) L with Some x => e | None => <the statements after the
+                                          loop> end     (c cannot raise and mutates nothing)
+     hasattr(e, 'name')                   has_attribute e <the classes that have the attribute, from Elements.py>
+     a if c else b                        if c then a else b; when a branch can raise or rebinds a local (S.pop()) the
+                                          branches are computations returning the value together with the rebound locals
+     D[k] = v                             kd_set D k v  (v is evaluated before k)
+     k in D, k not in D                   pmem k (dict_keys D), negb ..
+     [elm.get_nodes(e) for e in L]        map (fun e => (rounded_anchor e a1, rounded_anchor e a2)) L;  `for a, b in` such
+                                          a list binds the components
      try: <r> except KeyError: raise E    except_KeyError <r> (Err E)
      element.A  (translator functions)    attr_value prov element "A": the constructor ARGUMENT the attribute was stored
                                           from (SArg), negated when the constructor stores `X if not reverse else -X` and the
@@ -100,6 +113,15 @@ Definition dict_comp_res {A V} (l : list A) (f : A -> res (point * V)) : res (kd
 Fixpoint while_loop {S} (fuel : nat) (cond : S -> bool) (body : S -> S) (s : S) : S :=
   match fuel with O => s | Datatypes.S f => if cond s then while_loop f cond body (body s) else s end.
 Definition loop_bound {A} (l : list A) : nat := S (S (length l)).
+(* while True: <body>; if <stop>: return ..   the body runs, then the test decides between leaving and another round.
+   [body] maps the loop-carried locals to ALL locals bound after the body (the test and the returned expression may read
+   a local the body introduces), [next] projects them back to the loop-carried ones.  [fuel] bounds the number of
+   FURTHER rounds. *)
+Fixpoint do_until {S S'} (fuel : nat) (body : S -> S') (stop : S' -> bool) (next : S' -> S) (s : S) : S' :=
+  match fuel with
+  | O => body s
+  | Datatypes.S f => let s' := body s in if stop s' then s' else do_until f body stop next (next s')
+  end.
 Definition nth_res {A} (l : list A) (i : nat) : res A :=
   match nth_error l i with Some x => Ok x | None => Err EIndex end.
 Fixpoint filter_not_none {A} (l : list (option A)) : list A :=
